@@ -186,8 +186,10 @@ pub fn apply_narrowing(
         }
     }
 
-    // Also narrow any bindings in the current scope whose provenance matches.
-    if !matches!(provenance, Provenance::Unknown)
+    // Also narrow any bindings in the current scope whose provenance matches. Only an exact
+    // provenance identifies a source: two tuples with an `Unknown` part compare equal without
+    // being the same value.
+    if provenance.is_exact()
         && let Some(scope) = scopes.last_mut()
     {
         // Collect bindings to narrow first to avoid borrow conflicts
